@@ -1032,3 +1032,5 @@ def check(run, prog):
     rule_tabstops(run, prog)
     from .c09_linesplit import rule_line_split
     rule_line_split(run, prog, "R-3.6")
+    from .c03_comment_layout import rule_comment_layout
+    rule_comment_layout(run, prog, "R-3.7")
